@@ -184,6 +184,9 @@ def det_menu(T0):
         "CBS(GV)": ("CircularBinarySegmentation", dict(anomaly_score=GaussianVarCost(), threshold_scale=0.05, min_segment_length=2, max_interval_length=20), True, True),
         "CAPA": ("CAPA", dict(collective_penalty_scale=0.1, point_penalty_scale=0.05, min_segment_length=2, max_segment_length=100), False, False),
         "MVCAPA": ("MVCAPA", dict(collective_penalty_scale=0.1, point_penalty_scale=0.1, min_segment_length=2, max_segment_length=100), False, False),
+        # rank-dependent per-component penalties (unequal betas): a column-position dependent treatment shows
+        "MVCAPA(intermediate)": ("MVCAPA", dict(collective_penalty="intermediate", collective_penalty_scale=0.1, point_penalty="intermediate",
+                                                point_penalty_scale=0.3, min_segment_length=2, max_segment_length=100), False, False),
     }
     if T0 == "perm":
         return m
